@@ -95,9 +95,47 @@ theorem readlineLoop_conserve (size : Nat) (line : Bytes) (s : St) :
     simp only [St.pending]
     rw [List.append_assoc line, ← List.append_assoc (List.take _ _), List.take_append_drop]
 
+/-- giving the trailing CR back moves one byte from the result to the front of what is pending -/
+theorem giveBack_conserve (r : Bytes × St) :
+    (giveBack r).1 ++ (giveBack r).2.pending = r.1 ++ r.2.pending := by
+  unfold giveBack
+  split
+  · rename_i h
+    obtain ⟨h1, h2, _⟩ := h
+    have hne : r.1 ≠ [] := by intro h0; simp [h0] at h1
+    have hl : r.1.getLast hne = CR := by
+      rw [List.getLast?_eq_getLast hne] at h2
+      exact Option.some.inj h2
+    have := List.dropLast_concat_getLast hne
+    simp only [St.pending]
+    conv => rhs; rw [← this, hl]
+    simp
+  · rfl
+
+theorem giveBack_log (r : Bytes × St) : (giveBack r).2.log = r.2.log := by
+  unfold giveBack; split <;> rfl
+
+theorem giveBack_length (r : Bytes × St) : (giveBack r).1.length ≤ r.1.length := by
+  unfold giveBack; split
+  · simp
+  · exact Nat.le_refl _
+
+theorem giveBack_nil (r : Bytes × St) (h : (giveBack r).1 = []) : r.1 = [] := by
+  unfold giveBack at h
+  split at h
+  · rename_i hc
+    have h1 := hc.1
+    have : r.1.dropLast.length = r.1.length - 1 := by simp
+    simp only at h
+    rw [h] at this
+    simp at this
+    omega
+  · exact h
+
 theorem readline_conserve (s : St) (size : Nat) :
     (readline s size).1 ++ (readline s size).2.pending = s.pending := by
   unfold readline
+  rw [giveBack_conserve]
   simpa using readlineLoop_conserve (min size (s.buf.length + s.todo)) [] s
 
 theorem step_conserve (block : Nat) (s : St) (op : Op) :
@@ -113,6 +151,7 @@ theorem run_conserve (block : Nat) (s : St) (ops : List Op) :
   | cons op ops ih =>
     simp only [run, List.flatten_cons, List.append_assoc]
     rw [ih, step_conserve]
+
 
 end Poor.Reader
 
@@ -225,6 +264,7 @@ theorem readline_complete (s : St) (size : Nat) (hsz : 0 < size) (h : (readline 
     · have := len_pos hb; omega
     · omega
   unfold readline at h
+  replace h := giveBack_nil _ h
   generalize min size (s.buf.length + s.todo) = sz at h hpos
   exact readlineLoop_ne_nil sz [] s (by simpa using hpos)
     (prep_buf_ne_nil s _ (by simpa using hpos) hp) h
@@ -288,7 +328,13 @@ theorem step_inv (src0 : Bytes) (n block : Nat) (s : St) (op : Op) (h : Inv src0
     Inv src0 n (step block s op).2 := by
   cases op with
   | read sz => exact read_inv _ _ _ _ h
-  | readline sz => exact readlineLoop_inv _ _ _ _ _ h
+  | readline sz =>
+    have h1 := readlineLoop_inv src0 n (min (resolve block sz) (s.buf.length + s.todo)) [] s h
+    show Inv src0 n (giveBack _).2
+    unfold giveBack
+    split
+    · exact inv_buf _ _ _ _ h1
+    · exact h1
 
 theorem run_inv (src0 : Bytes) (n block : Nat) (s : St) (ops : List Op) (h : Inv src0 n s) :
     Inv src0 n (run block s ops).2 := by
@@ -333,6 +379,7 @@ theorem readlineLoop_reads (size : Nat) (line : Bytes) (s : St) :
     refine Nat.le_trans ih ?_
     simp only [List.length_append, List.length_take]
     omega
+
 
 end Poor.Reader
 
@@ -482,6 +529,7 @@ theorem findCRLF_none (b : Bytes) (lim : Nat) (h : findCRLF b lim = none) : NoCR
     | [x], _ => simp at hlen; omega
     | a :: c :: r, hx => first | exact hx a c r rfl | exact (hx a c r rfl rfl) | exact (hx a c r rfl lim rfl)
 
+
 end Poor.Reader
 
 namespace Poor.Reader
@@ -607,5 +655,51 @@ theorem readlineLoop_length (size : Nat) (line : Bytes) (s : St) (hl : line.leng
   | case5 line s h hb hc hf ih =>
     apply ih
     simp [List.length_take]; omega
+
+
+/-- dropping the held-back CR leaves no CRLF pair at all -/
+theorem giveBack_onlyFinal (r : Bytes × St) (h : OnlyFinalCRLF r.1) : OnlyFinalCRLF (giveBack r).1 := by
+  unfold giveBack
+  split
+  · rename_i hc
+    have hne : r.1 ≠ [] := by intro h0; have := hc.1; simp [h0] at this
+    intro pre suf e
+    simp only at e
+    have h2 := List.dropLast_concat_getLast hne
+    rw [e] at h2
+    have := h pre (suf ++ [r.1.getLast hne]) (by simpa using h2.symm)
+    simp at this
+  · exact h
+
+/-- why a `readline` result does not end in CRLF -/
+theorem readline_cut (s : St) (size : Nat) :
+    EndsCRLF (readline s size).1
+    ∨ min size (s.buf.length + s.todo) ≤ (readline s size).1.length
+    ∨ (readline s size).2.pending = []
+    ∨ ((readline s size).2.buf.head? = some CR ∧
+        (min size (s.buf.length + s.todo) ≤ (readline s size).1.length + 1 ∨ (readline s size).2.pending = [CR])) := by
+  unfold readline
+  generalize hsz : min size (s.buf.length + s.todo) = sz
+  have hcut := readlineLoop_cut sz [] s
+  have hlen := readlineLoop_length sz [] s (by simp)
+  unfold giveBack
+  split
+  · rename_i hc
+    obtain ⟨h1, h2, h3⟩ := hc
+    right; right; right
+    refine ⟨rfl, ?_⟩
+    rcases hcut with ⟨pre, hp⟩ | hcut | hcut
+    · rw [hp] at h2
+      simp [CR, LF] at h2
+    · left; simp only [List.length_dropLast]; omega
+    · right
+      simp only [St.pending] at hcut ⊢
+      have hb : (readlineLoop sz [] s).2.buf = [] := (List.append_eq_nil_iff.mp hcut).1
+      have ht := (List.append_eq_nil_iff.mp hcut).2
+      simp [hb, ht]
+  · rcases hcut with h | h | h
+    · exact Or.inl h
+    · exact Or.inr (Or.inl h)
+    · exact Or.inr (Or.inr (Or.inl h))
 
 end Poor.Reader
